@@ -186,6 +186,7 @@ def run_case(case):
     warnings.filterwarnings("ignore", category=SyntaxWarning)  # CPython's own warnings about the faulted texts
     out = {"key": case["key"], "family": case["family"], "symptom": None, "detail": None}
     n = 0
+    first_kind = None
     classes = set()
     if case["family"] == "SEED":
         it = ((tag, txt, None, comp.DEFAULTS) for tag, txt in mutations(case["seed"], case["tier"]))
@@ -196,6 +197,11 @@ def run_case(case):
         src = dict(libs, **{"": txt}) if libs else txt
         n += 1
         sym, desc, cls = judge(src, opts)
+        if case.get("same_class"):
+            kind = cls.split(":")[0]
+            first_kind = first_kind if n > 1 else kind
+            if sym is None and kind != first_kind:
+                sym, desc = "verdict-changes-on-resubmission", f"first submission: {first_kind}, submission {n}: {cls}"
         if sym is None and expect == "error" and not cls.startswith("error"):
             sym, desc = "must-be-reported-as-error", f"verdict class {cls!r}: a program of this kind (recursion) has to be rejected with an error"
         classes.add(cls)
@@ -358,7 +364,11 @@ def build_cases(tier):
     for name, items in scaling():
         cases.append({"family": "REPEAT", "items": items, "key": common.hkey("R", name, [i[0] for i in items])})
     for name, src, mods in constexpr_faults():
-        cases.append({"family": "CONSTEXPR-FAULT", "items": [(src, dict(comp.DEFAULTS))], "modules": mods, "key": common.hkey("C", name, src, mods), "name": name})
+        # the same faulty program is submitted three times (the editor recompiles on every keystroke): each verdict must be
+        # well-formed and of the same class as the first one
+        triple = name.endswith("/main") and name.split("/")[0] in ("raises", "prints", "nonjson", "loops", "sleep", "sysexit", "loops-swallow-interrupt", "none")
+        items = [(src, dict(comp.DEFAULTS))] + ([(src, dict(comp.DEFAULTS)), (src, dict(comp.DEFAULTS, compact=True, remove_labels=True))] if triple else [])
+        cases.append({"family": "CONSTEXPR-FAULT", "items": items, "same_class": triple, "modules": mods, "key": common.hkey("C", name, src, mods, triple), "name": name})
     return cases
 
 
@@ -374,7 +384,7 @@ def run(tier, propose=False):
         return {"verdict_classes_seen": sorted(cl), "seeds": sum(1 for c in cs if c["family"] == "SEED")}
 
     return common.enum_check(PROP, tier, cases, run_case, LEVEL, RULE, ASSUME, propose_only=propose, extra_cov=extra, det_n=0, nontrivial=lambda o: (o.get("stats") or {}).get("nontrivial", 0), exhaustive=True,
-                             slow_phase=(lambda c: c["family"] == "CONSTEXPR-FAULT", 4))
+                             slow_phase=(lambda c: c["family"] == "CONSTEXPR-FAULT", 6))
 
 
 def replay(path):
